@@ -37,6 +37,10 @@ using L_K16 = List<D<F, u8>, D<P, u16, 2>>;
 // unsigned bytes only (byte-wise <) with an over-aligned byte parameter behind a span
 using L_K17 = List<D<P, u8>, D<V, u8>, D<P, u8, 4>>;
 using L_K18 = List<D<P, u8>, D<P, u8, 2>, D<F, u8>>;
+// FixedSize parameters only, byte-wise comparable and padding-free: the whole block is compared at once
+using L_K19 = List<D<F, u8>>;
+using L_K20 = List<D<F, u8>, D<F, u8>>;
+using L_K21 = List<D<F, u32>, D<P, u32>>;
 }  // namespace hx
 
 #define HX_CAT_(a, b) a##b
@@ -44,6 +48,22 @@ using L_K18 = List<D<P, u8>, D<P, u8, 2>, D<F, u8>>;
 #define HX_STR_(a) #a
 #define HX_STR(a) HX_STR_(a)
 using LS = hx::HX_CAT(L_, CFG_LIST);
+
+// fixed-size codes: below 10 every FixedSize parameter has that size; 12 = sizes 1,2,1,2,... and 21 = 2,1,2,1,...
+// over the FixedSize parameters in order (vectors whose blocks have the same length but different field sizes)
+static std::size_t fsz(std::size_t code, std::size_t j)
+{
+    if (code < 10) return code;
+    const std::size_t even = code / 10, odd = code % 10;
+    return j % 2 == 0 ? even : odd;
+}
+static std::size_t findex(std::size_t k)
+{
+    std::size_t j = 0;
+    for (std::size_t i = 0; i < k; ++i)
+        if (LS::kinds[i] == F) ++j;
+    return j;
+}
 
 void* operator new(std::size_t n)
 {
@@ -166,7 +186,7 @@ struct Side
     static Vec make(std::size_t n, std::size_t bbytes, std::size_t fixed, int arena)
     {
         std::array<std::size_t, LS::NF> fs{};
-        for (auto& f : fs) f = fixed;
+        for (std::size_t j = 0; j < fs.size(); ++j) fs[j] = fsz(fixed, j);
         typename Vec::allocator_type al{arena};
         if constexpr (LS::NF > 0 && LS::NV > 0)
             return Vec(n, bbytes, fs, al);
@@ -218,7 +238,7 @@ static std::vector<Elem> all_elements(std::size_t fixed, int maxlen)
         {
             std::vector<std::size_t> lens;
             if (LS::kinds[k] == F)
-                lens = {fixed};
+                lens = {fsz(fixed, findex(k))};
             else
                 for (int l = 0; l <= maxlen; ++l) lens.push_back(static_cast<std::size_t>(l));
             for (auto len : lens)
@@ -457,7 +477,7 @@ struct VSpec
 
 template <class SA, class SB>
 static void vector_level(const std::vector<Elem>& R, const std::vector<std::vector<int>>& elt_lt, std::size_t fixed_a, std::size_t fixed_b,
-                         bool with_order)
+                         int with_order)  // 0: == only; 1: everything; 2: == and the differential oracle for < (no model of the element <)
 {
     // every sequence of length <= 2 over the representatives
     std::vector<VSpec> specs;
@@ -473,7 +493,7 @@ static void vector_level(const std::vector<Elem>& R, const std::vector<std::vect
             Elem e = R[static_cast<std::size_t>(i)];
             // fixed-size fields follow the vector's fixed size: truncate/extend with value 0
             for (std::size_t k = 0; k < LS::N; ++k)
-                if (LS::kinds[k] == F) e.f[k].resize(fixed, 0);
+                if (LS::kinds[k] == F) e.f[k].resize(fsz(fixed, findex(k)), 0);
             es.push_back(e);
         }
         return es;
@@ -481,7 +501,7 @@ static void vector_level(const std::vector<Elem>& R, const std::vector<std::vect
     std::vector<Elem> filler = R;
     for (auto& e : filler)
         for (std::size_t k = 0; k < LS::N; ++k)
-            if (LS::kinds[k] == F) e.f[k].resize(fixed_b, 2);
+            if (LS::kinds[k] == F) e.f[k].resize(fsz(fixed_b, findex(k)), 2);
     const std::size_t nv = specs.size();
     // variants of the right-hand side: spare capacity, arena, dirty memory, junk
     struct Var
@@ -537,6 +557,19 @@ static void vector_level(const std::vector<Elem>& R, const std::vector<std::vect
                     if ((b == a) != eq) report("C13", "cmp", "vec==:asymmetric", "a == b differs from b == a (rhs %s)", var.name);
                     if (with_order)
                     {
+                        // differential oracle: the generic algorithm over the real references, i.e. the lexicographical
+                        // comparison of the element sequences under the element-level <, whatever that is
+                        S.comparisons += 2;
+                        const bool dlt = std::lexicographical_compare(a.begin(), a.end(), b.begin(), b.end(),
+                                                                      [](const auto& x, const auto& y) { return x < y; });
+                        if ((a < b) != dlt)
+                            report("C14", "cmp", "vec<:element-sequence", "vector < is %d, std::lexicographical_compare over the elements gives %d for %s vs %s (rhs %s)",
+                                   int(a < b), int(dlt), show(elems(specs[i], fixed_a)).c_str(), show(elems(specs[j], fixed_b)).c_str(), var.name);
+                        if ((a < b) && eq) report("C14", "cmp", "vec<:lt-and-eq", "a < b and a == b");
+                        if ((a < b) && (b < a)) report("C14", "cmp", "vec<:symmetric", "a < b and b < a");
+                    }
+                    if (with_order == 1)
+                    {
                         S.comparisons += 5;
                         const bool lt = a < b, le = a <= b, gt = a > b, ge = a >= b, blt = b < a;
                         const bool mlt = seq_lt(specs[i], specs[j]);
@@ -567,7 +600,7 @@ static void vector_level(const std::vector<Elem>& R, const std::vector<std::vect
         run(TagA{});
         run(TagB{});
     }
-    if (with_order)
+    if (with_order == 1)
     {
         for (std::size_t i = 0; i < nv; ++i)
         {
@@ -640,16 +673,22 @@ int main(int argc, char** argv)
         };
         for (std::size_t i = 0; i < R.size(); ++i)
             for (std::size_t j = 0; j < R.size(); ++j) rlt[i][j] = lt[index_of(R[i])][index_of(R[j])];
-        vector_level<SideA, SideB>(R, rlt, fixed, fixed, true);
+        vector_level<SideA, SideB>(R, rlt, fixed, fixed, 1);
         if (S.samples.size() < 4) S.samples.push_back("vector pair [" + to_string(R[0]) + to_string(R[1]) + "] vs [" + to_string(R[0]) + "]");
     }
     if (LS::NF)
     {
-        // C13 only: operands with different fixed sizes
-        auto E = all_elements(1, maxlen);
-        std::vector<Elem> R{E[0], E[1], E[E.size() - 1], E[E.size() / 2]};
-        std::vector<std::vector<int>> rlt(R.size(), std::vector<int>(R.size(), 0));
-        vector_level<SideA, SideB>(R, rlt, 1, 2, false);
+        // operands with different fixed sizes: blocks of the same length can hold a different number of elements
+        // (sizes 1 and 2, 1 and 3) or the same number of elements with different field sizes (1,2 against 2,1)
+        std::vector<std::pair<std::size_t, std::size_t>> fixed_pairs{{1, 2}, {2, 1}, {1, 3}};
+        if (LS::NF > 1) fixed_pairs.push_back({12, 21});
+        for (auto [fa, fb] : fixed_pairs)
+        {
+            auto E = all_elements(fa, maxlen);
+            std::vector<Elem> R{E[0], E[1], E[E.size() - 1], E[E.size() / 2]};
+            std::vector<std::vector<int>> rlt(R.size(), std::vector<int>(R.size(), 0));
+            vector_level<SideA, SideB>(R, rlt, fa, fb, 2);
+        }
     }
     const double wall = std::chrono::duration<double>(std::chrono::steady_clock::now() - t0).count();
     std::ostringstream js;
